@@ -112,7 +112,7 @@ def run(ctx):
             if not quick:
                 ctx.broken("generator family %s is empty" % fam)
             continue
-        for off in (vias if fam != "sim" else [ctx.seed % 3]):
+        for off in (vias if fam == "bfs" else [ctx.seed % 3]):
             if ctx.replay_behaviours(binp, "TestVerifX01", "blockstore", gen[fam], env={"VERIF_X01_VIA": off},
                                      name="sched_%s_via%d" % (fam, off), nontrivial=nontrivial, timeout=2400) is None:
                 return
